@@ -57,7 +57,7 @@ theorem stepX_hold_wait {cfg : Cfg} {n : Net} {v : View} (h : RInv cfg n v) (hok
   obtain ⟨s', hp, hce, hl', hpb'⟩ := holder_poll_waits v.sx.s [] now p1 d f h.okx.son hst hlx
     (by rw [h.okx.b33]; exact hw)
   obtain ⟨n', hn', hinv'⟩ := rinv_quiet_x h now e.tl (Int.le_of_lt e.own) [] { s := s', apps := [], rx := [] } hd
-    (by rw [hphy, h.rxx]; exact hp) rfl hce.1 hce.2.1 (hce.2.2.1.trans h.okx.son) (hpb'.trans h.pbx) rfl
+    (by rw [hphy, h.rxx]; exact hp) rfl hce.1 (.inl hce.2.1) (hce.2.2.1.trans h.okx.son) (hpb'.trans h.pbx) rfl
     (by
       unfold PhaseOk View.setX upSt
       simp only [hph]
@@ -112,7 +112,7 @@ theorem stepX_hold_go {cfg : Cfg} {n : Net} {v : View} (h : RInv cfg n v) (hok :
       have h3 := hinvc.hsa
       omega
     obtain ⟨n', old', hn', hinv'⟩ := rinv_send_x h hok now e.tl (Int.le_of_lt e.own) c _ (.gap a) hd
-      (by rw [hphy]; exact hp) htx o4 hring (o5.trans h.okx.son) (o6.trans h.pbx) o1 hend (.inl hs1)
+      (by rw [hphy]; exact hp) htx o4 (.inl hring) (o5.trans h.okx.son) (o6.trans h.pbx) o1 hend (.inl hs1)
       (by
         intro old'
         unfold PhaseOk View.sendX upSt
@@ -130,11 +130,10 @@ theorem stepX_hold_go {cfg : Cfg} {n : Net} {v : View} (h : RInv cfg n v) (hok :
     · rw [adr_y v h.x2]; exact hnay
     · unfold View.nextTx View.sendX; rfl
   · -- token
-    have hring' : c.s.ring = v.sx.s.ring := by rw [hring, h.okx.fix]
     have hst'' : c.s.st = .checkTokenPass .first := by
-      rw [hst', h.okx.fix, h.okx.ns, if_neg (Ne.symm h.okx.ne)]
+      rw [hst', h.okx.ns_witness, if_neg (Ne.symm h.okx.ne)]
     obtain ⟨n', old', hn', hinv'⟩ := rinv_send_x h hok now e.tl (Int.le_of_lt e.own) c _ .pass hd
-      (by rw [hphy]; exact hp) htx o4 hring' (o5.trans h.okx.son) (o6.trans h.pbx) o1 hend (.inl hs1)
+      (by rw [hphy]; exact hp) htx o4 (.inr hring) (o5.trans h.okx.son) (o6.trans h.pbx) o1 hend (.inl hs1)
       (by
         intro old'
         unfold PhaseOk View.sendX upSt
@@ -173,7 +172,7 @@ theorem stepX_gap_wait {cfg : Cfg} {n : Net} {v : View} (h : RInv cfg n v) (hok 
       rw [hphy]
       exact await_poll_waits v.sx.s now _ g h.okx.inv h.okx.son hst hlx (by omega) (by rw [h.okx.slot]; omega)
   obtain ⟨n', hn', hinv'⟩ := rinv_quiet_x h now e.tl (Int.le_of_lt e.own) [] { s := v.sx.s, apps := [], rx := [] } hd
-    (by rw [h.rxx]; exact hpoll) rfl rfl rfl h.okx.son h.pbx rfl
+    (by rw [h.rxx]; exact hpoll) rfl rfl (.inl rfl) h.okx.son h.pbx rfl
     (by
       unfold PhaseOk View.setX upSt
       simp only [hph]
@@ -217,7 +216,7 @@ theorem stepX_pass {cfg : Cfg} {n : Net} {v : View} (h : RInv cfg n v) (hok : cf
       exact ⟨c', hc', htx', hs', ha', hr'⟩
   obtain ⟨c', hc', htx', hs', ha', hr'⟩ := hpoll
   obtain ⟨n', hn', hinv'⟩ := rinv_quiet_x h now e.tl (Int.le_of_lt e.own) [] c' hd
-    (by rw [h.rxx]; exact hc') htx' (by rw [hs']) (by rw [hs']) (by rw [hs']; exact h.okx.son) (by rw [hs']; exact h.pbx) hr'
+    (by rw [h.rxx]; exact hc') htx' (by rw [hs']) (.inl (by rw [hs'])) (by rw [hs']; exact h.okx.son) (by rw [hs']; exact h.pbx) hr'
     (by
       unfold PhaseOk View.setX upSt
       simp only [hph, hs']
@@ -266,9 +265,8 @@ theorem stepX_gap_timeout {cfg : Cfg} {n : Net} {v : View} (h : RInv cfg n v) (h
   obtain ⟨c, hp, hinvc, o1, o2, o4, o5, o6, htx, hring, hst', hlast⟩ := await_poll_timeout v.sx.s now _ g
     h.okx.inv h.okx.son hst hlx (by rw [h.okx.slot]; exact hex) (by rw [h.okx.b33, h.okx.slot]; omega)
   rw [h.okx.addr, h.okx.ns] at htx hring hst'
-  have hring' : c.s.ring = v.sx.s.ring := by rw [hring, h.okx.fix]
   have hst'' : c.s.st = .checkTokenPass .first := by
-    rw [hst', h.okx.fix, h.okx.ns, if_neg (Ne.symm h.okx.ne)]
+    rw [hst', h.okx.ns_witness, if_neg (Ne.symm h.okx.ne)]
   have hend : n.bus.txEnd v.tr ≤ now := by
     rw [h.bus.txEnd_eq, hlen]; show _ + ((cfg.ce 5 : Nat) : Int) ≤ _; omega
   have hsync : n.bus.txEnd v.tr + (cfg.b33 : Nat) < now := by
@@ -282,7 +280,7 @@ theorem stepX_gap_timeout {cfg : Cfg} {n : Net} {v : View} (h : RInv cfg n v) (h
     omega
   have htto := h.oky.tto
   obtain ⟨n', old', hn', hinv'⟩ := rinv_send_x h hok now e.tl (Int.le_of_lt e.own) c _ .pass hd
-    (by rw [hphy]; exact hp) htx o4 hring' (o5.trans h.okx.son) (o6.trans h.pbx) o1 hend
+    (by rw [hphy]; exact hp) htx o4 (.inr hring) (o5.trans h.okx.son) (o6.trans h.pbx) o1 hend
     (.inr (by rw [h.bus.txEnd_eq, hlen]; show _ + ((cfg.ce 5 : Nat) : Int) ≤ _; omega))
     (by
       intro old'
@@ -329,7 +327,7 @@ theorem stepY_hold {cfg : Cfg} {n : Net} {v : View} (h : RInv cfg n v) (hok : cf
       exact ⟨c', hc', htx', hs', ha', hr'⟩
   obtain ⟨c', hc', htx', hs', ha', hr'⟩ := hpoll
   obtain ⟨n', hn', hinv'⟩ := rinv_quiet_y h now e.tl (Int.le_of_lt e.own) [] c' v.idle v.ly hd
-    (by rw [hphy, hyrx]; exact hc') htx' (by rw [hs']) (by rw [hs']) (by rw [hs']; exact h.oky.son)
+    (by rw [hphy, hyrx]; exact hc') htx' (by rw [hs']) (.inl (by rw [hs'])) (by rw [hs']; exact h.oky.son)
     (by
       unfold PhaseOk View.setY upSt
       simp only [hph, hs', hr']
@@ -364,7 +362,7 @@ theorem stepY_gap_idle {cfg : Cfg} {n : Net} {v : View} (h : RInv cfg n v) (hok 
     (.inr (by omega)) receiveAll_nil
   simp only [List.length_nil, checkBus_nil] at hp
   obtain ⟨n', hn', hinv'⟩ := rinv_quiet_y h now e.tl (Int.le_of_lt e.own) [] { s := v.sy.s, apps := [], rx := [] } true v.ly hd
-    (by rw [hphy, hyrx]; exact hp) rfl rfl rfl h.oky.son
+    (by rw [hphy, hyrx]; exact hp) rfl rfl (.inl rfl) h.oky.son
     (by
       unfold PhaseOk View.setY upSt
       simp only [hph, if_true]
@@ -499,7 +497,7 @@ theorem stepY_gap_partial {cfg : Cfg} {n : Net} {v : View} (h : RInv cfg n v) (h
   obtain ⟨inc, c, ly', hd, hp, htx, h1, h2, h3, hY'⟩ := yrecv_partial h hok hs1 hY
     (by intro m hm; rw [hb] at hm ⊢; rw [statusRequestBytes_length] at hm; exact receiveAll_statusRequest_prefix g v.ax m hm)
     now e hpart
-  obtain ⟨n', hn', hinv'⟩ := rinv_quiet_y h now e.tl (Int.le_of_lt e.own) inc c v.idle ly' hd hp htx h1 h2 h3
+  obtain ⟨n', hn', hinv'⟩ := rinv_quiet_y h now e.tl (Int.le_of_lt e.own) inc c v.idle ly' hd hp htx h1 (.inl h2) h3
     (by
       unfold PhaseOk
       have e1 : (v.setY c v.idle ly' now).ph = .gap g := hph
@@ -522,7 +520,7 @@ theorem stepY_pass_partial {cfg : Cfg} {n : Net} {v : View} (h : RInv cfg n v) (
   obtain ⟨inc, c, ly', hd, hp, htx, h1, h2, h3, hY'⟩ := yrecv_partial h hok hs1 hY
     (by intro m hm; rw [hb] at hm ⊢; exact receiveAll_token_prefix _ _ m hm)
     now e hpart
-  obtain ⟨n', hn', hinv'⟩ := rinv_quiet_y h now e.tl (Int.le_of_lt e.own) inc c v.idle ly' hd hp htx h1 h2 h3
+  obtain ⟨n', hn', hinv'⟩ := rinv_quiet_y h now e.tl (Int.le_of_lt e.own) inc c v.idle ly' hd hp htx h1 (.inl h2) h3
     (by
       unfold PhaseOk
       have e1 : (v.setY c v.idle ly' now).ph = .pass := hph
@@ -573,7 +571,7 @@ theorem stepY_gap_complete {cfg : Cfg} {n : Net} {v : View} (h : RInv cfg n v) (
     have := (cvis_spec cfg v.tr now 5 (by rw [hlen]; decide)).1 (by rw [hfull, hlen]; decide)
     exact this
   obtain ⟨n', hn', hinv'⟩ := rinv_quiet_y h now e.tl (Int.le_of_lt e.own) inc _ true now hd
-    (by rw [hphy, hrx']; exact hp) rfl rfl rfl h.oky.son
+    (by rw [hphy, hrx']; exact hp) rfl rfl (.inl rfl) h.oky.son
     (by
       unfold PhaseOk
       have e1 : ∀ c, (v.setY c true now now).ph = .gap g := fun _ => hph
@@ -650,7 +648,7 @@ theorem stepY_pass_complete {cfg : Cfg} {n : Net} {v : View} (h : RInv cfg n v) 
       unfold acceptRing
       rw [if_pos hsrc]
   obtain ⟨n', hn', hinv'⟩ := rinv_swap_y h now e.tl (Int.le_of_lt e.own) inc _ (v.tr.start + (cfg.b33 : Nat)) hd
-    (by rw [hphy, hrx']; exact hpoll) rfl rfl rfl h.oky.son rfl rfl
+    (by rw [hphy, hrx']; exact hpoll) rfl rfl (.inl rfl) h.oky.son rfl rfl
     (by
       unfold PhaseOk View.swap upSt
       simp only
@@ -665,5 +663,97 @@ theorem stepY_pass_complete {cfg : Cfg} {n : Net} {v : View} (h : RInv cfg n v) 
     · rw [if_pos rfl, if_neg (Ne.symm hne)]
   · unfold View.nextTx View.swap
     simp only [hph]
+
+/-- **One event**: any poll of either station allowed by the schedule re-establishes the invariant. -/
+theorem ring2_step {cfg : Cfg} {n : Net} {v : View} (h : RInv cfg n v) (hok : cfg.Ok) (i : Nat) (now : Int)
+    (e : EvOk cfg n v i now) : StepOut cfg n v i now := by
+  rcases two_cases v.x i h.x2 e.i2 with rfl | rfl
+  · cases hph : v.ph with
+    | hold p1 =>
+      by_cases hw : now ≤ p1 + (cfg.b33 : Nat)
+      · exact stepX_hold_wait h hok p1 hph now e hw
+      · exact stepX_hold_go h hok p1 hph now e (by omega)
+    | gap g =>
+      by_cases hw : now ≤ v.tr.start + (cfg.b66 : Nat) + (cfg.slot : Nat)
+      · exact stepX_gap_wait h hok g hph now e hw
+      · exact stepX_gap_timeout h hok g hph now e (by omega)
+    | pass => exact stepX_pass h hok hph now e
+  · cases hph : v.ph with
+    | hold p1 => exact stepY_hold h hok p1 hph now e
+    | gap g =>
+      cases hid : v.idle with
+      | true => exact stepY_gap_idle h hok g hph hid now e
+      | false =>
+        by_cases hpart : cvis cfg v.tr now < v.tr.bytes.length
+        · exact stepY_gap_partial h hok g hph hid now e hpart
+        · exact stepY_gap_complete h hok g hph hid now e (by have := cvis_le cfg v.tr now; omega)
+    | pass =>
+      by_cases hpart : cvis cfg v.tr now < v.tr.bytes.length
+      · exact stepY_pass_partial h hok hph now e hpart
+      · exact stepY_pass_complete h hok hph now e (by have := cvis_le cfg v.tr now; omega)
+
+/-! ## Whole runs -/
+
+/-- A schedule for the two stations: events `(station, time)` in time order, every station's own poll
+times strictly increasing, and at every event no station has been unpolled for more than `P`.  (`seen`
+is the bus's record of the last poll times; it does not depend on what the stations do.) -/
+def Sched (P : Nat) : Net → Int → List (Nat × Int) → Prop
+  | _, _, [] => True
+  | n, tl, (i, now) :: rest =>
+    i < 2 ∧ tl ≤ now ∧ n.bus.seen.getD i 0 < now ∧ (∀ j, j < 2 → now ≤ n.bus.seen.getD j 0 + (P : Nat)) ∧
+    Sched P (n.poll i now).1 now rest
+
+/-- What a run of the stable two-station ring looks like (`adr`: the two addresses, `turn`: the station
+whose turn it is to transmit, `lastEnd`: end of the last transmission on the bus):
+every poll returns regularly; only the station whose turn it is transmits; every transmission starts
+later than 33 bit times after the end of the previous one (no overlap, synchronisation pause); it is a GAP
+request to an address that is not the other station's (the turn stays) or the token to the other station
+(the turn passes on).  Nobody ever claims, retries or replies. -/
+def GoodRun (cfg : Cfg) (adr : Nat → Nat) : Net → Nat → Int → List (Nat × Int) → Prop
+  | _, _, _, [] => True
+  | n, turn, lastEnd, (i, now) :: rest =>
+    ∃ n' inc c, n.poll i now = (n', inc, some (.ok c)) ∧
+      ((c.tx = none ∧ GoodRun cfg adr n' turn lastEnd rest) ∨
+       (∃ b, c.tx = some b ∧ i = turn ∧ lastEnd + (cfg.b33 : Nat) < now ∧
+          ((∃ g, b = statusRequestBytes g (adr i) ∧ g ≠ adr (oth i) ∧
+              GoodRun cfg adr n' i (now + (cfg.ce (b.length - 1) : Nat)) rest) ∨
+           (b = tokenBytes (adr (oth i)) (adr i) ∧
+              GoodRun cfg adr n' (oth i) (now + (cfg.ce (b.length - 1) : Nat)) rest))))
+
+theorem ring2_run {cfg : Cfg} (hok : cfg.Ok) (adr : Nat → Nat) : ∀ (evs : List (Nat × Int)) (n : Net) (v : View),
+    RInv cfg n v → (∀ j, j < 2 → v.adr j = adr j) → Sched cfg.P n v.tl evs →
+    GoodRun cfg adr n v.nextTx (n.bus.txEnd v.tr) evs := by
+  intro evs
+  induction evs with
+  | nil => intro _ _ _ _ _; trivial
+  | cons ev rest ih =>
+    intro n v h hadr hs
+    obtain ⟨i, now⟩ := ev
+    obtain ⟨hi, htl, hown, hgap, hrest⟩ := hs
+    have e : EvOk cfg n v i now := ⟨hi, htl, hown, hgap v.x h.x2, hgap (oth v.x) (oth_lt _)⟩
+    obtain ⟨n', v', inc, c, hp, hinv', htl', hadr', hcase⟩ := ring2_step h hok i now e
+    have hn' : (n.poll i now).1 = n' := by rw [hp]
+    rw [hn', ← htl'] at hrest
+    have ih' := ih n' v' hinv' (fun j hj => (hadr' j hj).trans (hadr j hj)) hrest
+    refine ⟨n', inc, c, hp, ?_⟩
+    rcases hcase with ⟨htx, htr, hnx⟩ | ⟨b, htx, hit, hsync, htr, hkind⟩
+    · left
+      refine ⟨htx, ?_⟩
+      rw [hnx, htr, hinv'.bus.txEnd_eq, ← h.bus.txEnd_eq] at ih'
+      exact ih'
+    · right
+      have hend : n'.bus.txEnd v'.tr = now + ((cfg.ce (b.length - 1) : Nat) : Int) := by
+        rw [hinv'.bus.txEnd_eq, htr]
+      rw [hend] at ih'
+      have hoi := hadr (oth i) (oth_lt _)
+      have hii := hadr i hi
+      refine ⟨b, htx, hit, hsync, ?_⟩
+      rcases hkind with ⟨g, hb, hg, hnx⟩ | ⟨hb, hnx⟩
+      · left
+        rw [hnx] at ih'
+        exact ⟨g, by rw [hb, hii], by rw [← hoi]; exact hg, ih'⟩
+      · right
+        rw [hnx] at ih'
+        exact ⟨by rw [hb, hii, hoi], ih'⟩
 
 end PV
